@@ -1,6 +1,7 @@
 package main
 
 import (
+	"strings"
 	"bytes"
 	"crypto/aes"
 	"crypto/cipher"
@@ -318,7 +319,8 @@ func genC07(c *Ctx) {
 		return true
 	}
 	var configs []config
-	for _, vp := range [][2]int{{polV3, polV3}, {polV2, polV2 | polV3}, {polV2 | polV3, polV3}} {
+	for _, vp := range [][2]int{{polV3, polV3}, {polV2, polV2 | polV3}, {polV2 | polV3, polV3}, {polV2 | polV3, polV2}, {polV3, polV2 | polV3},
+		{polV2, polV2}, {polV2 | polV3, polV2 | polV3}} {
 		configs = append(configs,
 			config{"query-one", vp[0], vp[1], nil, []action{q12}},
 			config{"query-both", vp[0], vp[1], nil, []action{q12, q21}},
@@ -334,7 +336,11 @@ func genC07(c *Ctx) {
 		)
 	}
 	for ci, cf := range configs {
-		if !c.Thorough() && ci >= 11 && ci%3 != 0 { // quick: all nine with the first policy pair, a third of the rest
+		// quick: every configuration with the first policy pair; with the other pairs every single-start configuration
+		// (one schedule each) and a third of the rest
+		single := cf.name == "query-one" || cf.name == "whitespace" || cf.name == "error-start" || cf.name == "require-send" || cf.name == "refresh" ||
+			strings.HasPrefix(cf.name, "after-end")
+		if !c.Thorough() && ci >= 11 && !single && ci%3 != 0 { // quick: all nine with the first policy pair, a third of the rest
 			continue
 		}
 		seed := c.R.U64()
